@@ -16,17 +16,18 @@ pub fn run(ctx: &Ctx) -> ! {
         std::process::exit(0);
     }
     let only = |name: &str| ctx.extra_args.iter().all(|a| !a.starts_with("--only=")) || ctx.has_flag(&format!("--only={name}"));
+    // cheapest first, so that a wall-clock budget hit on an oversubscribed machine trims only the tail
+    if only("dtype") {
+        dtype::run(ctx, &mut st);
+    }
+    if only("text") {
+        text::run(ctx, &mut st);
+    }
     if only("matrix") {
         matrix::run(ctx, &mut st);
     }
     if only("exhaustive") {
         exhaustive::run(ctx, &mut st);
-    }
-    if only("text") {
-        text::run(ctx, &mut st);
-    }
-    if only("dtype") {
-        dtype::run(ctx, &mut st);
     }
     vcore::finish(
         ctx,
